@@ -141,7 +141,7 @@ def run_traj(case):
         if np.abs(c_ - ((np.array(v) + 0.5) / np.array(dims)) @ M).max() > 1e-9 * float(L.max()):
             raise Violation('voxel-cartesian', f'{v}')
         n_map += 1
-    labels = [case['lattice']['family']] + (['mapping-compared'] if n_map else [])
+    labels = [case['lattice']['family']] + (['mapping-compared'] if n_map else []) + (['nearly-equal-cell-edges'] if case['lattice'].get('near_degenerate') else [])
     if n_edge:
         labels.append('sample-on-voxel-edge')
     if n_last:
@@ -157,6 +157,10 @@ def run_traj(case):
 def traj_cases(draw, tier):
     big = tier == 'thorough'
     lat = draw(gen.lattices())
+    if draw(st.integers(0, 4)) == 0:
+        # nearly degenerate cell: edge lengths that agree to 1e-6 .. 1e-3 but are not equal (a relaxed "cubic" cell)
+        eps = [draw(st.sampled_from([0.0, 2e-4, -2e-4, 4e-4, -4e-4, 8e-4, 1e-6, -1e-6])) for _ in range(3)]
+        lat = dict(lat, matrix=(np.array(lat['matrix'], float) * (1.0 + np.array(eps)).reshape(3, 1)).tolist(), near_degenerate=True)
     M = np.array(lat['matrix'])
     L = np.linalg.norm(M, axis=1)
     mode = draw(st.sampled_from(['free', 'target-n', 'target-n', 'pow2']))
